@@ -231,7 +231,7 @@ func (im *impl) end(c string, k int64, epoch int16, commit bool) string {
 		return "err-request:" + strings.ReplaceAll(err.Error(), " ", "_")
 	}
 	resp := kresp.(*kmsg.EndTxnResponse)
-	if resp.ErrorCode == 0 && c == "n" && resp.ProducerID != im.pid(k) {
+	if resp.ErrorCode == 0 && resp.ProducerID != -1 && resp.ProducerID != im.pid(k) {
 		return fmt.Sprintf("pid-changed %d", resp.ProducerEpoch)
 	}
 	return fmt.Sprintf("%d %d", resp.ErrorCode, resp.ProducerEpoch)
